@@ -298,6 +298,18 @@ def fam_links():
     return Family("links", v, ["s1", "s2"], ["o1", "l1", "o2"], ["all", "link"])
 
 
+def fam_archive():
+    # the `archive` tool (`ar cr`): members added, dropped and reordered by description edits; the archive is a leaf
+    # of the graph (nothing here reads the binary file)
+    b = Desc("base", [Cmd("C1", ["s1"], ["a.o"]), Cmd("C2", ["s2"], ["b.o"]),
+                      Cmd("AR", ["a.o", "b.o"], ["lib.a"], tool="archive")], {"all": ["lib.a"], "obj": ["a.o"]})
+    v = [b, retag(b, "tag-C1", "C1"),
+         replace(b, "drop-member", Cmd("AR", ["a.o"], ["lib.a"], tool="archive")),
+         replace(b, "swap-members", Cmd("AR", ["b.o", "a.o"], ["lib.a"], tool="archive")),
+         replace(b, "src-member", Cmd("AR", ["a.o", "b.o", "s1"], ["lib.a"], tool="archive"))]
+    return Family("archive", v, ["s1", "s2"], ["lib.a", "a.o"], ["all", "obj"], quick=True)
+
+
 def fam_twoprod():
     # two independent producers feeding one consumer, plus a second target sharing C1
     b = Desc("base", [Cmd("C1", ["s1"], ["o1"]), Cmd("C2", ["s1", "s2"], ["o2"]), Cmd("C3", ["o1", "o2"], ["o3"]),
@@ -350,7 +362,7 @@ def fam_default():
 
 def all_families():
     fs = [fam_chain(), fam_diamond(), fam_multi(), fam_virt(), fam_dir(), fam_tools(), fam_typedir(),
-          fam_isdir(), fam_aood(), fam_allowmissing(), fam_deps(), fam_deps2(), fam_linkout(), fam_prodtree(), fam_deepdir(), fam_chain3(), fam_fanin(), fam_fanout(),
+          fam_isdir(), fam_aood(), fam_allowmissing(), fam_deps(), fam_deps2(), fam_linkout(), fam_prodtree(), fam_deepdir(), fam_archive(), fam_chain3(), fam_fanin(), fam_fanout(),
           fam_phonyfile(), fam_dirchain(), fam_dirmulti(), fam_srcdir2(), fam_mkdirs(), fam_links(),
           fam_twoprod(), fam_selfgen(), fam_nodetype(), fam_virtchain(), fam_multi3(), fam_modout(), fam_default()]
     return fs
